@@ -13,7 +13,7 @@ from harness import chars, core, drivers, findings, tlc
 GEN_INV = ['SrcIsConc', 'AnchorsInSrc', 'AnchorsOrdered', 'FinalKeeps', 'Dump']
 
 LAYOUT = ['a', 'b', 'sp', 'nl', 'cm', 'lb', 'uk']
-LAYOUT2 = ['a', 'sp', 'nl', 'tab', 'cm', 'lb', 'ix', 'uk', 'ob', 'cb', 'skp', 'par', 'bl', 'el', 'q', 'bm', 'em', 'skb', 'ske', 'fn']
+LAYOUT2 = ['hs0', 'hsp', 'bp', 'ep', 'a', 'sp', 'nl', 'tab', 'cm', 'lb', 'ix', 'uk', 'ob', 'cb', 'skp', 'par', 'bl', 'el', 'q', 'bm', 'em', 'skb', 'ske', 'fn']
 LINES = ['L_a', 'L_ia', 'L_iia', 'L_lb', 'L_ilb', 'L_tlb', 'L_uk', 'L_e', 'L_sp', 'L_cm', 'L_icm', 'L_alb', 'L_lba', 'L_par', 'L_skp', 'L_ob', 'L_cb', 'b']
 LINES10 = ['L_a', 'L_iia', 'L_lb', 'L_ilb', 'L_uk', 'L_e', 'L_sp', 'L_cm', 'L_alb', 'b']
 VERBL = ['L_a', 'L_iia', 'L_lb', 'L_ilb', 'L_vrb', 'vrb', 'vrb2', 'b', 'sp', 'L_cm', 'L_ob', 'L_cb', 'add', 'cb', 'fn']
@@ -37,11 +37,11 @@ FAULTS = ['Fim', 'FimE', 'Fdm', 'FdmE', 'FeqE', 'FargE', 'FoptE', 'FvbE', 'FveE'
 FLT2 = ['ltE', 'ltD', 'uA', 'a', 'b', 'sp', 'nl', 'cm', 'lb', 'uk', 'ob', 'cb', 'fn', 'sec', 'im', 'add', 'it', 'bi', 'ei', 'vb', 'tie', 'skb', 'ske', 'q', 'mo', 'mc', 'my', 'bd', 'ed'] + FAULTS
 EXTR = ['alt', 'acb', 'a', 'b', 'sp', 'nl', 'fn', 'xo', 'cap', 'cb', 'uk', 'ob', 'sec', 'add', 'tc', 'cmf', 'cm', 'skb', 'ske', 'q', 'fnq', 'bl', 'el', 'im', 'ref', 'lb', 'par', 'bi', 'ei', 'it']
 UNKN = ['hsu', 'phu', 'a', 'sp', 'uk', 'uk2', 'bu', 'eu', 'xo', 'cb', 'ob', 'fn', 'sec', 'add', 'tc', 'cmu', 'skb', 'ske', 'q', 'mo', 'mc', 'mal', 'my', 'bd', 'ed', 'dA', 'uA', 'dB', 'uB', 'uC', 'dC', 'lb', 'it', 'bi', 'ei', 'vb']
-COPY = ['a', 'b', '.', 'sp', 'nl', 'cm', 'ob', 'cb', 'uk', 'add', 'fbx', 'tc', 'fn', 'cap', 'vb', 'tie', 'nd', 'md', 'lq', 'rq',
+COPY = ['acc', 'tbs', 'itl', 'ilc', 'bi', 'ei', 'a', 'b', '.', 'sp', 'nl', 'cm', 'ob', 'cb', 'uk', 'add', 'fbx', 'tc', 'fn', 'cap', 'vb', 'tie', 'nd', 'md', 'lq', 'rq',
         'thin', 'pct', 'amp', 'dol', 'hsh', 'usc', 'lbr', 'rbr', 'lb', 'sec', 'im']
-PROSE = ['hsu', 'phu', 'alt', 'acb', 'ltD', 'uA', 'up', 'cto', 'ctc', 'a', 'b', '!', 'sp', 'nl', 'cm', 'uk', 'uk2', 'ob', 'cb', 'add', 'tc', 'fn', 'cap', 'sec', 'sub', 'bi', 'ei', 'be', 'ee', 'it',
+PROSE = ['itl', 'ilc', 'bp', 'ep', 'bt', 'et', 'tamp', 'tbsl', 'capo', 'seco', 'hsu', 'phu', 'alt', 'acb', 'ltD', 'uA', 'up', 'cto', 'ctc', 'a', 'b', '!', 'sp', 'nl', 'cm', 'uk', 'uk2', 'ob', 'cb', 'add', 'tc', 'fn', 'cap', 'sec', 'sub', 'bi', 'ei', 'be', 'ee', 'it',
          'bu', 'eu', 'skb', 'ske', 'q', 'fnq', 'skp', 'bl', 'el', 'lb', 'ix', 'cite', 'ref', 'im', 'imp', 'par', 'bm', 'em']
-GENER = ['dB', 'dC', 'uB', 'uBt', 'uC', 'a', '.', 'sp', 'nl', 'ref', 'cite', 'im', 'imp', 'it', 'bi', 'ei', 'be', 'ee', 'sec', 'sub', 'fn', 'cap', 'cb', 'par', 'bm', 'em', 'lb', 'uk']
+GENER = ['itl', 'ilc', 'bp', 'ep', 'tamp', 'bt', 'et', 'hsp', 'phn', 'tbs', 'dB', 'dC', 'uB', 'uBt', 'uC', 'a', '.', 'sp', 'nl', 'ref', 'cite', 'im', 'imp', 'it', 'bi', 'ei', 'be', 'ee', 'sec', 'sub', 'fn', 'cap', 'cb', 'par', 'bm', 'em', 'lb', 'uk']
 
 # per property: verdict key, list of exhaustive configs per tier (symbols, MaxSym, MaxDepth), simulation
 CONFIG = {
@@ -90,7 +90,7 @@ CONFIG = {
                 thorough=[(LAYOUT, 6, 1), (LAYOUT2, 4, 2), (['a', 'sp', 'nl', 'cm', 'lb', 'uk', 'ob', 'cb', 'skp', 'par', 'tab'], 5, 2), (LINES10, 5, 1), (LINES, 4, 2)],
                 sim=(LAYOUT2, 300, 3000)),
 }
-OPTS = {'pack': 'xcolor,listings,amsmath,glossaries'}
+OPTS = {'pack': 'xcolor,listings,amsmath,glossaries,amsthm'}
 
 
 def project(rec):
